@@ -51,6 +51,8 @@ ORC_UPD = [0, 1, 0, 1]
 ORC_PPFAIL = [1, 0, 0, 1]
 ORC_CCFAIL = [0, 0, 1, 1]
 ORC_NOOUT = [0, 0, 0, 0]
+ORC_PPSIG = [98, 0, 0, 1]        # the preprocessor is killed by a signal (no exit code)
+ORC_CCSIG = [0, 0, 98, 1]        # the compiler is killed by a signal
 ORC_PPPANIC = [99, 0, 0, 1]      # the server's own code panics on the way to the preprocessor
 ORC_CCPANIC = [0, 0, 99, 1]      # ... on the way to the compiler
 
@@ -71,7 +73,7 @@ PPPUT = [b'none', b'err', b'ro', b'panic']
 GET = [b'none', b'miss', b'err', b'timeout', b'garbage', b'truncated', b'badobj', b'noobj', b'panic']
 PUT = [b'none', b'err', b'toolarge', b'ro'] + ([b'panic'] if put_panic_handled() else [])
 CCS = [b'default', b'recache', b'nocache']
-CLASSES = [b'compile', b'unsupported', b'vanished', b'notcompile', b'cannotcache', b'cannotcache2']
+CLASSES = [b'compile', b'unsupported', b'vanished', b'notcompile', b'cannotcache', b'cannotcache2', b'noargs']
 NOF = [b'none', b'none', b'none', b'none', b'none']
 # classes the server executes: gcc/clang compiles, and MSVC -Zi -Fd<existing pdb> (Cacheable::No at compile time)
 EXEC = (b'compile', b'msvc_nc')
@@ -160,7 +162,8 @@ def gen_table(tier, force_level=None):
     for ppmode in (1, 0):
         pre = prefixes(ppmode)
         for orc, oname in ((ORC_OK, 'ok'), (ORC_UPD, 'upd'), (ORC_PPFAIL, 'ppfail'), (ORC_CCFAIL, 'ccfail'),
-                           (ORC_NOOUT, 'noout'), (ORC_PPPANIC, 'pppanic'), (ORC_CCPANIC, 'ccpanic')):
+                           (ORC_NOOUT, 'noout'), (ORC_PPPANIC, 'pppanic'), (ORC_CCPANIC, 'ccpanic'),
+                           (ORC_PPSIG, 'ppsig'), (ORC_CCSIG, 'ccsig')):
             if oname == 'upd' and not ppmode:
                 continue
             orcs = [orc, ORC_OK, ORC_UPD, ORC_OK]
@@ -220,7 +223,7 @@ def gen_histories(rng, n, maxlen, par_weight=2, zero_weight=1):
         orcs = []
         for t in range(NTU):
             o = list(rng.weighted([(ORC_OK, 12), (ORC_PPFAIL, 2), (ORC_CCFAIL, 2), (ORC_NOOUT, 1), (ORC_PPPANIC, 1),
-                                   (ORC_CCPANIC, 1)]))
+                                   (ORC_CCPANIC, 1), (ORC_PPSIG, 1), (ORC_CCSIG, 1)]))
             if t >= 2 and rng.chance(1, 2):
                 o[1] = 1
             orcs.append(o)
@@ -394,6 +397,8 @@ def direct_of(t, orc, ok):
     pp, upd, cs, cout = orc
     pp = 0 if pp == 99 else pp       # 99: not the compiler's behaviour but a panic inside the server
     cs = 0 if cs == 99 else cs
+    pp = 265 if pp == 98 else pp     # 98: killed by signal 9, reported as 256 + 9
+    cs = 265 if cs == 98 else cs
     d = str(t).encode()
     if pp != 0:
         return (pp, b'', b'ppe' + d, [])
